@@ -759,3 +759,71 @@ Proof.
     destruct (nth_error row (S k)) as [r'|] eqn:Er'; [|discriminate]. cbn in Hf. inversion Hf; subst f.
     cbn. apply (C k r r' Er Er').
 Qed.
+
+(* one level dropped *)
+Lemma cell_ok_drop t li row o : validate t = true -> wf t -> (S li < length t)%nat ->
+  Election.path_ok (raw_drop t li) row = true ->
+  backfill_one (drop_cells t) (place (remove_nth li (seq 0 (length t))) row) = TOk o ->
+  cell_ok t (remove_nth li (seq 0 (length t))) o = true.
+Proof.
+  intros V W Hli P H. destruct (path_ok_elim _ row P) as (L & N & C).
+  rewrite raw_drop_length in L by lia.
+  destruct (backfill_one_drop_form t li row o Hli L H) as (r & p & Er & Ep & ->).
+  set (n := length t) in *. set (m := remove_nth li (seq 0 n)) in *. set (c := place m row) in *.
+  assert (Lc : forall k, lookup k c = if (k =? li)%nat then None else option_map direct (nth_error row (down_level li k))).
+  { intros k. unfold c, m. apply lookup_place_drop; [lia | exact L]. }
+  assert (Lo : forall k, lookup k (c ++ [(li, inferred p (direct r))]) =
+                         if (k =? li)%nat then Some (inferred p (direct r))
+                         else option_map direct (nth_error row (down_level li k))).
+  { intros k. rewrite lookup_app, Lc. cbn [lookup]. destruct (k =? li)%nat; [reflexivity|].
+    destruct (option_map direct (nth_error row (down_level li k))); reflexivity. }
+  assert (Lm : length m = (n - 1)%nat).
+  { unfold m. rewrite remove_nth_length by (rewrite seq_length; lia). rewrite seq_length. reflexivity. }
+  apply cell_ok_intro; auto.
+  - rewrite app_length. unfold c, place. rewrite combine_length, map_length, Lm, L. cbn. fold n. lia.
+  - intros k Hk. fold n in Hk. rewrite Lo. destruct (k =? li)%nat eqn:Ek.
+    + apply Nat.eqb_eq in Ek. subst k. exists (inferred p (direct r)). split; [reflexivity|].
+      replace (nat_mem li m) with false.
+      2:{ symmetry. apply not_true_iff_false. intros X. apply nat_mem_in in X. apply (names_drop_not_in n li X). }
+      exists (direct r), p. split; [|split; [exact Ep | reflexivity]].
+      rewrite Lo. replace (S li =? li)%nat with false by (symmetry; apply Nat.eqb_neq; lia).
+      unfold down_level. replace (S li <? li)%nat with false by (symmetry; apply Nat.ltb_ge; lia).
+      cbn [pred]. rewrite Er. reflexivity.
+    + apply Nat.eqb_neq in Ek. set (j := down_level li k).
+      assert (Hj : (j < n - 1)%nat) by (unfold j, down_level; destruct (k <? li)%nat eqn:E2; [apply Nat.ltb_lt in E2|apply Nat.ltb_ge in E2]; lia).
+      assert (Hup : up_level li j = k).
+      { unfold j, up_level, down_level. destruct (k <? li)%nat eqn:E2; [rewrite E2; reflexivity|].
+        apply Nat.ltb_ge in E2. replace (pred k <? li)%nat with false by (symmetry; apply Nat.ltb_ge; lia). lia. }
+      destruct (nth_error row j) as [rj|] eqn:Erj; [|apply nth_error_None in Erj; lia].
+      exists (direct rj). split; [reflexivity|].
+      replace (nat_mem k m) with true.
+      2:{ symmetry. apply nat_mem_in. apply (nth_error_In m j). unfold m. rewrite names_drop_nth by lia. f_equal. exact Hup. }
+      split; [reflexivity|]. split; [discriminate|]. split.
+      * pose proof (N j rj Erj) as Hn. rewrite raw_drop_nth in Hn by lia. cbn [direct o_asg].
+        rewrite <- Hup. unfold up_level.
+        destruct (S j =? li)%nat eqn:E1.
+        -- apply Nat.eqb_eq in E1. rewrite merge_nodes in Hn.
+           replace (j <? li)%nat with true by (symmetry; apply Nat.ltb_lt; lia). exact Hn.
+        -- destruct (j <? li)%nat; exact Hn.
+      * intros f Hf HS. rewrite Lo in Hf. cbn [direct o_asg]. destruct (S k =? li)%nat eqn:ESk.
+        -- (* the next level is the dropped one: its record is the parent of the record below *)
+           apply Nat.eqb_eq in ESk. inversion Hf; subst f. cbn [inferred o_asg].
+           assert (Ejk : j = k) by (unfold j, down_level; replace (k <? li)%nat with true by (symmetry; apply Nat.ltb_lt; lia); reflexivity).
+           assert (Er' : nth_error row (S j) = Some r) by (rewrite Ejk, ESk; exact Er).
+           pose proof (C j rj r Erj Er') as Hc. rewrite raw_drop_children in Hc by lia.
+           replace (S j =? li)%nat with true in Hc by (symmetry; apply Nat.eqb_eq; lia).
+           apply in_flat_map in Hc. destruct Hc as (d & Hd & Hr).
+           pose proof (children_parent_of t V li d (asg r) Hli Hr) as Hpd.
+           rewrite Ep in Hpd. inversion Hpd; subst d. rewrite <- Ejk. exact Hd.
+        -- apply Nat.eqb_neq in ESk.
+           assert (EdS : down_level li (S k) = S j).
+           { unfold j, down_level. destruct (k <? li)%nat eqn:E2.
+             - apply Nat.ltb_lt in E2. replace (S k <? li)%nat with true by (symmetry; apply Nat.ltb_lt; lia). reflexivity.
+             - apply Nat.ltb_ge in E2. replace (S k <? li)%nat with false by (symmetry; apply Nat.ltb_ge; lia). cbn [pred]. lia. }
+           rewrite EdS in Hf. destruct (nth_error row (S j)) as [r'|] eqn:Er'; [|discriminate].
+           cbn in Hf. inversion Hf; subst f. cbn [direct o_asg].
+           pose proof (C j rj r' Erj Er') as Hc. rewrite raw_drop_children in Hc by lia.
+           replace (S j =? li)%nat with false in Hc.
+           2:{ symmetry. apply Nat.eqb_neq. unfold j, down_level. destruct (k <? li)%nat eqn:E2; [apply Nat.ltb_lt in E2|apply Nat.ltb_ge in E2]; lia. }
+           rewrite Hup in Hc. exact Hc.
+Qed.
